@@ -131,7 +131,9 @@ def run_tlc(module, cfg, name, workers=4, timeout=1800, env_extra=None, replay_o
     shutil.rmtree(meta, ignore_errors=True)
     logf = os.path.join(OUT, "tlc", name + ".log")
     mod_path = os.path.join(SPEC, module)
-    java = ["java", "-XX:+UseParallelGC", "-Xmx" + heap, "-Xss1g", "-DTLA-Library=" + SPEC + ":" + os.path.join(SPEC, "mc") + ":" + os.path.join(SPEC, "trace")]
+    jtmp = os.path.join(OUT, "tlc", "jtmp")       # nothing of a run lives under /tmp
+    os.makedirs(jtmp, exist_ok=True)
+    java = ["java", "-XX:+UseParallelGC", "-Xmx" + heap, "-Xss1g", "-Djava.io.tmpdir=" + jtmp, "-DTLA-Library=" + SPEC + ":" + os.path.join(SPEC, "mc") + ":" + os.path.join(SPEC, "trace")]
     if dfs:
         java.append("-Dtlc2.tool.queue.IStateQueue=StateDeque")
     cmd = ["timeout", str(timeout)] + java + ["-cp", TLA_CP, "tlc2.TLC", "-workers", str(workers), "-metadir", meta,
@@ -287,6 +289,7 @@ class Run:
         self.failures = []   # unlisted violations
         self.known_hits = {}  # finding id -> count
         self.known = load_known()
+        self.observations = {}  # clause -> [count, first record]: system behaviour BEYOND the listed properties
 
     def add_tlc(self, res):
         self.states += res.distinct
@@ -303,6 +306,11 @@ class Run:
         else:
             self.failures.append(rec)
 
+    def observation(self, clause, rec):
+        """A clause of the specification that belongs to no listed property failed: reported, never an alarm."""
+        o = self.observations.setdefault(clause, [0, rec])
+        o[0] += 1
+
     def finish(self):
         wall = time.time() - self.t0
         cov = {
@@ -313,6 +321,8 @@ class Run:
             "known_findings_hit": {k: v[0] for k, v in self.known_hits.items()},
         }
         cov.update(self.extra)
+        if self.observations:
+            cov["observations_beyond_the_properties"] = {k: {"count": v[0], "first": v[1]} for k, v in self.observations.items()}
         ev = {"property_id": self.prop, "tier": self.tier, "seed": self.seed, "level": self.level,
               "coverage": cov, "assumptions": self.assumptions, "wall_s": round(wall, 2),
               "violations": len(self.failures)}
@@ -322,6 +332,8 @@ class Run:
         with open(os.path.join(evdir, self.prop + ".json"), "w") as f:
             json.dump(ev, f, indent=1, sort_keys=True)
             f.write("\n")
+        for k, (n, rec) in sorted(self.observations.items()):
+            print("OBSERVATION (beyond the listed properties): clause=%s occurrences=%d first=%s" % (k, n, json.dumps(rec)[:400]))
         for k, (n, f, rec) in sorted(self.known_hits.items()):
             print("KNOWN-FINDING: property=%s %s [%s, %d occurrence(s) in this run]" % (self.prop, f["what"], k, n))
         if self.failures:
